@@ -254,13 +254,32 @@ def run(ctx):
                         'the placeholder content is not written and recognised through one constant that no base64 text can equal (written=%s compared=%s distinct=%s guarded=%s)' % (wr, rdc, distinct, guard)))
 
     # ---------------- C20.d paths
-    okg = False
-    body = [s for s in gp.node.body if not (isinstance(s, ast.Expr) and isinstance(s.value, ast.Constant))]
-    kw_first = any(isinstance(n, ast.Assign) and isinstance(n.value, ast.Call) and isinstance(n.value.func, ast.Attribute) and n.value.func.attr == 'get' and
-                   any(self_attr(a) == 'file_path_arg_name' for a in n.value.args) for n in body)
-    pos_after = any(isinstance(n, ast.If) and any(isinstance(x, ast.Subscript) and self_attr(x.slice) == 'file_path_arg_index' for x in ast.walk(n)) for n in body)
-    okg = kw_first and pos_after
-    cd.instance('path function: keyword argument first, then position', gp.qualname, okg)
+    # path table of the path function: the keyword lookup when it gave something, the positional argument otherwise
+    from .. import paths as _paths
+
+    def is_kw(e):
+        return isinstance(e, ast.Call) and isinstance(e.func, ast.Attribute) and e.func.attr == 'get' and \
+            any(self_attr(a) == 'file_path_arg_name' for a in e.args) and len(e.args) == 1
+
+    def is_pos(e):
+        return isinstance(e, ast.Subscript) and self_attr(e.slice) == 'file_path_arg_index'
+    try:
+        table = _paths.return_paths(gp.node)
+    except _paths.Unsupported as ex:
+        raise AnalysisError('path function has a shape the path table does not model: %s' % ex)
+    okg = bool(table)
+    kinds = set()
+    for p in table:
+        cls_ = [_paths.classify(c, pol, is_kw) for c, pol in p.conds]
+        cls_ = [c for c in cls_ if c]
+        if p.value is not None and is_kw(p.value) and cls_ and all(c in ('truthy', 'notnone') for c in cls_):
+            kinds.add('kw')
+        elif p.value is not None and is_pos(p.value) and cls_ and all(c in ('falsy', 'none') for c in cls_):
+            kinds.add('pos')
+        else:
+            okg = False
+    okg = okg and kinds == {'kw', 'pos'}
+    cd.instance('path function: keyword argument first, then position (%s)' % '; '.join(p.text() for p in table), gp.qualname, okg)
     if not okg:
         res.add(Finding('C20', 'C20.d', 'R-PROV', gp.file, gp.qualname, gp.node.lineno, 'path lookup order', 'the intercepted path is not taken from the keyword argument first and the position otherwise'))
     ri = inp.lookup('restore_input_from_recording')
@@ -318,14 +337,32 @@ def run(ctx):
                             'bytes) read each other\'s path / content' % norm(n)[:80]))
 
     # ---------------- C20.e limit source
-    oke = False
-    first = [s for s in calc.node.body if not (isinstance(s, ast.Expr) and isinstance(s.value, ast.Constant))]
-    if first and isinstance(first[0], ast.If):
-        t = first[0].test
-        oke = isinstance(t, ast.Compare) and isinstance(t.ops[0], ast.IsNot) and isinstance(t.comparators[0], ast.Constant) and t.comparators[0].value is None and \
-            any(isinstance(x, ast.Return) and isinstance(x.value, ast.Name) and x.value.id == calc.params[0] for x in first[0].body)
-    env = any(isinstance(n, ast.Call) and norm(n.func) in ('os.getenv', 'os.environ.get') and len(n.args) == 2 for n in ast.walk(calc.node))
-    ce.instance('explicit limit if not None, else environment variable with default', calc.qualname, oke and env)
+    # path table: the parameter itself exactly when it is not None; otherwise a value read from the environment with a default
+    pname = calc.params[0] if calc.params else None
+
+    def is_p(e):
+        return isinstance(e, ast.Name) and e.id == pname
+
+    def from_env(e):
+        return any(isinstance(n, ast.Call) and norm(n.func) in ('os.getenv', 'os.environ.get') and len(n.args) == 2 for n in ast.walk(e)) and \
+            not any(is_p(n) for n in ast.walk(e))
+    try:
+        table = _paths.return_paths(calc.node)
+    except _paths.Unsupported as ex:
+        raise AnalysisError('limit source has a shape the path table does not model: %s' % ex)
+    oke = bool(table) and pname is not None
+    seen_kinds = set()
+    for p in table:
+        cls_ = [c for c in (_paths.classify(c, pol, is_p) for c, pol in p.conds) if c]
+        if p.value is not None and is_p(p.value) and cls_ and all(c == 'notnone' for c in cls_):
+            seen_kinds.add('explicit')
+        elif p.value is not None and from_env(p.value) and cls_ and all(c == 'none' for c in cls_):
+            seen_kinds.add('env')
+        else:
+            oke = False
+    oke = oke and seen_kinds == {'explicit', 'env'}
+    env = True
+    ce.instance('explicit limit if not None, else environment variable with default (%s)' % '; '.join(p.text() for p in table), calc.qualname, oke and env)
     ce.evaluations += 1
     if not (oke and env):
         res.add(Finding('C20', 'C20.e', 'R-DECISION', calc.file, calc.qualname, calc.node.lineno, 'limit source',
